@@ -260,6 +260,16 @@ int main(int argc, char** argv)
                         op["dir"] = rel;
                     }
                 }
+                if (op.contains("file") && op["file"].is_string())
+                {
+                    // a file inside such a directory ("@W/name/m.db", "@R/name/m.db")
+                    auto f = op["file"].get<std::string>();
+                    const char* w = getenv("VERIF_WORKDIR");
+                    if (f.rfind("@W/", 0) == 0)
+                        op["file"] = std::string(w ? w : "/dev/shm") + "/" + f.substr(3);
+                    else if (f.rfind("@R/", 0) == 0)
+                        op["file"] = f.substr(3);
+                }
                 json ret;
                 bool ok = dispatch_api(st, name, op, ret) || dispatch_codec(st, name, op, ret) ||
                           dispatch_table(st, name, op, ret);
